@@ -411,7 +411,10 @@ fn write_replay<H: Harness>(
         original_choices_len: orig_len,
         shrink_executions: execs,
     };
-    let dir = root_dir().join("replays");
+    let dir = match std::env::var("VERIF_REPLAY_DIR") {
+        Ok(d) => PathBuf::from(d),
+        Err(_) => root_dir().join("replays"),
+    };
     std::fs::create_dir_all(&dir)?;
     let path = dir.join(format!("{}-{:016x}.json", h.property(), out.digest));
     let mut f = std::fs::File::create(&path)?;
@@ -802,7 +805,12 @@ fn master<H: Harness>(h: &H, args: &Args) -> i32 {
         "violations": violations.len(),
     });
     if harness_errors.is_empty() || !violations.is_empty() {
-        let evdir = root.join("evidence");
+        // VERIF_EVIDENCE_DIR: used by the sensitivity runs against patched
+        // scratch trees, so that they never overwrite the evidence of /repo.
+        let evdir = match std::env::var("VERIF_EVIDENCE_DIR") {
+            Ok(d) => PathBuf::from(d),
+            Err(_) => root.join("evidence"),
+        };
         let _ = std::fs::create_dir_all(&evdir);
         let path = evdir.join(format!("{}.json", h.property()));
         if let Err(e) = std::fs::write(
